@@ -14,6 +14,11 @@ register(
         "GtModel.C11.strScript_reconstructs",
         "GtModel.C11.strScript_no_subst",
         "GtModel.C11.strCost_eq",
+        # corollaries: direction / reversal independence, nothing marked <=> equal strings
+        "GtModel.C11.lcs_comm",
+        "GtModel.C11.removed_plus_inserted_symm",
+        "GtModel.C11.removed_plus_inserted_reverse",
+        "GtModel.C11.no_marks_iff_eq",
         # what `lcs` means
         "GtModel.EditMatrix.lcs_le",
         "GtModel.EditMatrix.lcs_attained",
@@ -47,5 +52,7 @@ register(
         "its _cleanup observation hook used to read costs/path_costs before they are freed",
     ],
     partial="bytes strings (diffable since /repo bb73030, element-wise over StringNode(int)) are covered by the theorems only "
-            "under the assumption 'elements of size 1'; the strscript stream generates str inputs only",
+            "under the assumption 'elements of size 1'; that assumption itself (an element of a bytes object costs 1) has no theorem: it is "
+            "checked on the real code by the bytes cases of the strscript stream (all pairs over {a,b} up to length 3, sampled "
+            "beyond incl. NUL / 0xff / quote / backslash, script and coloured rendering)",
 )
